@@ -258,6 +258,8 @@ def check(prog: Program, tier: str) -> Result:
         kind = "scheduled (through processing.fix wrapper)" if fn.is_fix else "direct"
         if s in (PARAM, VALID, SAFE):
             res.ok("R3.3", fn.loc(), fn.fq, f"pipeline stage {fn.fq}", f"{kind}: returns its input or a validated text [{s}]")
+        elif not fn.is_fix and _r3_8(prog, res, fn):
+            res.ok("R3.3", fn.loc(), fn.fq, f"pipeline stage {fn.fq}", "direct editor made of whitespace-only regex substitutions that end at a line boundary (R3.8)")
         else:
             res.undecided("R3.3", fn.loc(), fn.fq, f"pipeline stage {fn.fq}",
                           f"{kind} editor without rollback: validity of its output is a runtime property (unguarded surface)")
@@ -284,12 +286,164 @@ def check(prog: Program, tier: str) -> Result:
         for site, written in sites:
             _write_obligation(res, prog, st, fn, pa, site, written)
     res.floors["R3.2"] = 2
+    res.floors["R3.8"] = 2
     _r3_5(prog, res)
     _r3_6(prog, res, st)
     _r3_7(prog, res)
     res.analysed.update({"anchor_functions": [f.fq for f in anchors], "pipeline_stages": len(pipeline_fns),
                          "safe_text_summaries": {f"{k[0]}.{k[1]}": v for k, v in sorted(st.summary.items())}})
     return res
+
+
+def _regex_of(prog: Program, fn: Func, e: ast.AST, depth: int = 0) -> Optional[str]:
+    """Pattern text of a str constant / re.compile(..) / local or module-level name bound to one."""
+    if depth > 4:
+        return None
+    if isinstance(e, ast.Constant) and isinstance(e.value, str):
+        return e.value
+    if isinstance(e, ast.Call) and prog.dotted(e.func) == "re.compile" and e.args and not e.keywords and len(e.args) == 1:
+        return _regex_of(prog, fn, e.args[0], depth + 1)
+    if isinstance(e, ast.Name):
+        from ..defuse import bindings
+        defs = [v for (_s, v) in bindings(fn).get(e.id, [])]
+        if len(defs) == 1 and defs[0] is not None:
+            return _regex_of(prog, fn, defs[0], depth + 1)
+        if not defs and e.id in fn.mod.globals:
+            return _regex_of(prog, fn, fn.mod.globals[e.id], depth + 1)
+    return None
+
+
+def _r3_8(prog: Program, res: Result, fn: Func) -> bool:
+    """A direct editor that is nothing but `text = re.sub(P, R, text)` steps keeps valid Python valid if every step only
+    re-spaces blank lines: (a) P consumes whitespace only; (b) what P consumes stops at a line boundary - it ends with a
+    newline, or at the end of the text, or the trailing group that may reach into the next line's indentation is put back
+    by R - so the indentation of the following statement is never eaten; (c) when P consumes a newline, R puts one back
+    (two lines are never joined).  Decided on the regex AST (re._parser).  -> True when the function is such an editor
+    and every step passed (then its R3.3 obligation is discharged instead of undecided)."""
+    import re._parser as sre
+    p = fn.posparams[0] if fn.posparams else None
+    if p is None:
+        return False
+    body = [s_ for s_ in fn.node.body if not (isinstance(s_, ast.Expr) and isinstance(s_.value, ast.Constant))]
+    steps = []
+    for s_ in body[:-1]:
+        if not (isinstance(s_, ast.Assign) and len(s_.targets) == 1 and isinstance(s_.targets[0], ast.Name) and s_.targets[0].id == p and isinstance(s_.value, ast.Call)):
+            return False
+        c = s_.value
+        if prog.dotted(c.func) == "re.sub" and len(c.args) == 3 and not c.keywords:
+            pat, repl, text = c.args
+        elif isinstance(c.func, ast.Attribute) and c.func.attr == "sub" and len(c.args) == 2 and not c.keywords:
+            pat, (repl, text) = c.func.value, c.args
+        else:
+            return False
+        if not (isinstance(text, ast.Name) and text.id == p):
+            return False
+        steps.append((s_, pat, repl))
+    if not steps or not (isinstance(body[-1], ast.Return) and isinstance(body[-1].value, ast.Name) and body[-1].value.id == p):
+        return False
+    all_ok = True
+    for s_, pat, repl in steps:
+        ptxt = _regex_of(prog, fn, pat)
+        try:
+            from .. import strexpr
+            with strexpr.context(prog, fn):
+                rtxt = strexpr.ev(repl, {})
+        except Exception:
+            rtxt = None
+        if ptxt is None or not isinstance(rtxt, str):
+            res.undecided("R3.8", fn.loc(s_), fn.fq, short(s_, 90), "pattern or replacement is not a constant")
+            all_ok = False
+            continue
+        try:
+            tree = sre.parse(ptxt)
+        except Exception as error:
+            res.undecided("R3.8", fn.loc(s_), fn.fq, short(s_, 90), f"pattern does not parse: {error}")
+            all_ok = False
+            continue
+        items = list(tree)
+        problems = []
+
+        def space_only(seq) -> bool:
+            for op, av in seq:
+                name = str(op)
+                if name == "LITERAL":
+                    if not chr(av).isspace():
+                        return False
+                elif name == "IN":
+                    for o2, a2 in av:
+                        if str(o2) == "NEGATE" or (str(o2) == "LITERAL" and not chr(a2).isspace()) or (str(o2) == "CATEGORY" and str(a2) != "CATEGORY_SPACE") \
+                                or str(o2) not in ("LITERAL", "CATEGORY"):
+                            return False
+                elif name in ("MAX_REPEAT", "MIN_REPEAT"):
+                    if not space_only(av[2]):
+                        return False
+                elif name == "SUBPATTERN":
+                    if not space_only(av[3]):
+                        return False
+                elif name == "BRANCH":
+                    if not all(space_only(b) for b in av[1]):
+                        return False
+                elif name in ("AT", "ASSERT", "ASSERT_NOT"):
+                    continue        # zero-width
+                else:
+                    return False
+            return True
+
+        def can_match_newline(seq) -> bool:
+            for op, av in seq:
+                name = str(op)
+                if name == "LITERAL" and chr(av) == "\n":
+                    return True
+                if name == "IN" and any((str(o2) == "CATEGORY" and str(a2) == "CATEGORY_SPACE") or (str(o2) == "LITERAL" and chr(a2) == "\n") for o2, a2 in av):
+                    return True
+                if name in ("MAX_REPEAT", "MIN_REPEAT") and can_match_newline(av[2]):
+                    return True
+                if name == "SUBPATTERN" and can_match_newline(av[3]):
+                    return True
+                if name == "BRANCH" and any(can_match_newline(b) for b in av[1]):
+                    return True
+            return False
+
+        def tail_horizontal(seq) -> bool:
+            """Can the LAST consumed characters be blanks/tabs standing after a newline (= the next line's indentation)?"""
+            consuming = [(op, av) for op, av in seq if str(op) not in ("AT", "ASSERT", "ASSERT_NOT")]
+            if not consuming:
+                return False
+            op, av = consuming[-1]
+            name = str(op)
+            if name == "LITERAL":
+                return chr(av) in " \t"
+            if name == "IN":
+                return any((str(o2) == "CATEGORY" and str(a2) == "CATEGORY_SPACE") or (str(o2) == "LITERAL" and chr(a2) in " \t") for o2, a2 in av)
+            if name in ("MAX_REPEAT", "MIN_REPEAT"):
+                if tail_horizontal(av[2]):
+                    return True
+                # an optional last element: look at what stands before it as well
+                return av[0] == 0 and tail_horizontal(consuming[:-1])
+            if name == "SUBPATTERN":
+                return tail_horizontal(av[3])
+            if name == "BRANCH":
+                return any(tail_horizontal(b) for b in av[1])
+            return True
+        if not space_only(items):
+            problems.append("the pattern consumes characters other than whitespace")
+        at_end = any(str(op) == "AT" and str(av) in ("AT_END_STRING", "AT_END") for op, av in items[-1:])
+        # the trailing group is put back by the replacement: P = ...(G) [lookahead], R ends with \g<n> / \n
+        consuming = [(op, av) for op, av in items if str(op) not in ("AT", "ASSERT", "ASSERT_NOT")]
+        restored = False
+        if consuming and str(consuming[-1][0]) == "SUBPATTERN" and consuming[-1][1][0] is not None:
+            g = consuming[-1][1][0]
+            restored = rtxt.endswith(f"\\g<{g}>") or rtxt.endswith(f"\\{g}")
+        if not at_end and not restored and tail_horizontal(items):
+            problems.append("the match can end in blanks that are the INDENTATION of the next statement, and the replacement does not put them back: "
+                            "`if x:\\n\\n\\n\\n    y` loses the indentation of `y`")
+        if can_match_newline(items) and "\n" not in rtxt and "\\n" not in rtxt and not at_end:     # "\\n" in a template is a newline as well
+            problems.append("the match contains a line break but the replacement has none: two lines are joined")
+        ok = not problems
+        all_ok = all_ok and ok
+        res.decide(ok, "R3.8", fn.loc(s_), fn.fq, short(s_, 90),
+                   "whitespace-only substitution that ends at a line boundary" if ok else "; ".join(problems))
+    return all_ok
 
 
 def _r3_7(prog: Program, res: Result) -> None:
@@ -727,6 +881,13 @@ def _sub_summary(prog: Program, st: SafeText) -> str:
 from ..selftest import Variant  # noqa: E402
 
 VARIANTS = [
+    Variant("blank-line-patterns-precompiled", "SILENT", "fixes",
+            "    source = re.sub(r\"(\\n\\s*){3,}\\n\", \"\\n\" * 3, source)\n", "    source = _MANY_BREAKS.sub(\"\\n\" * 3, source)\n",
+            extra=[("fixes", "def fix_too_many_blank_lines(source: str) -> str:", "_MANY_BREAKS = re.compile(r\"(\\n\\s*){3,}\\n\")\n\n\ndef fix_too_many_blank_lines(source: str) -> str:")]),
+    Variant("blank-line-pattern-eats-indentation", "FIRE", "fixes",
+            "    source = re.sub(r\"(\\n\\s*){3,}\\n\", \"\\n\" * 3, source)\n", "    source = re.sub(r\"(\\n\\s*){4,}\", \"\\n\" * 3, source)\n", "R3.8"),
+    Variant("blank-line-pattern-joins-lines", "FIRE", "fixes",
+            "    source = re.sub(r\"(\\n\\s*){3,}\\n\", \"\\n\" * 3, source)\n", "    source = re.sub(r\"(\\n\\s*){3,}\\n\", \"\", source)\n", "R3.8"),
     Variant("scheduled-results-only-parsed", "FIRE", "processing",
             "    if core.is_compilable(source) and not core.is_compilable(new_source):\n        return source  # For example a return that ended up outside of its function\n\n    return new_source\n\n\ndef fix(", "    return new_source\n\n\ndef fix(", "R3.7"),
     Variant("compile-check-not-relative-to-the-input", "SILENT", "processing",
